@@ -120,8 +120,6 @@ func unfaithfulClass(res []*reAtom) (string, string) {
 				c = "show_series_anchored_regex"
 			case !at.literal:
 				c = "regex_nonliteral_unanchored"
-			case dm == r.spec:
-				c = "regex_literal_reinterpreted_by_prune" // literal /a\.b/ re-compiled as a.b
 			}
 			if c != "" && rank(c) >= rank(class) {
 				if c != class {
@@ -329,11 +327,7 @@ func (rn *runner) opSearch(kind string) {
 	class, why := unfaithfulClass(res)
 	if perr != "" || err != nil {
 		line := rn.emit(op, errText(perr, err))
-		if perr != "" && class == "regex_literal_reinterpreted_by_prune" {
-			rn.c.Violation(line, class, "search panicked: "+perr+"; "+why)
-		} else {
-			rn.c.Violation(line, "", "search failed: "+errText(perr, err))
-		}
+		rn.c.Violation(line, "", "search failed: "+errText(perr, err))
 		rn.c.Case(op, true)
 		return
 	}
